@@ -88,10 +88,12 @@ func checkC12(c *Ctx) *report.Result {
 		base = quiet(it.StateOn(c.W.Generic))
 		c.dumpCells("c12", base, tm)
 	}
-	runEdge := func(ec edgeCase, tima *ai.Int) (*DecEval, ai.Sym) {
+	var runEdgeFrom func(from *ai.State, ec edgeCase, tima *ai.Int) (*DecEval, ai.Sym)
+	runEdge := func(ec edgeCase, tima *ai.Int) (*DecEval, ai.Sym) { return runEdgeFrom(base, ec, tima) }
+	runEdgeFrom = func(from *ai.State, ec edgeCase, tima *ai.Int) (*DecEval, ai.Sym) {
 		k := bitOf[ec.sel]
 		var ts ai.Sym
-		ev := c.evalCall(base, endFn, self, nil, func(st *ai.State) {
+		ev := c.evalCall(from, endFn, self, nil, func(st *ai.State) {
 			// divider: bits above k symbolic, bits 0..k fixed so that bit k after +4 is known
 			cs := c.symCell(st, tm, ".counter")
 			_ = cs
@@ -248,6 +250,29 @@ func checkC12(c *Ctx) *report.Result {
 			a, _ := step(w)
 			tima := c.cellInt(a, tm, ".tima")
 			r.Ob("W-window", exactly(tima, s), tag+": a TIMA write in the 00 cycle cancels the reload", where, "TIMA after cycle A "+ai.ValueString(tima))
+		}
+	}
+
+	// (5) a TMA write made long before the overflow must not resurface: TMA written in normal operation, a cycle
+	// passes, then overflow, TIMA written in the 00 cycle -> the written value survives cycles A and B
+	{
+		v0, _ := newV("tma-early")
+		b0 := base.Fork()
+		b0.SetCell(tm, ".lastEdgeSet", ai.NewConstBool(false)) // detector quiet: no counted edge while we wait
+		s0 := doWrite(doWrite(b0, wTAC, ai.NewConstInt(8, false, 0)), wTMA, v0)
+		s1, _ := step(s0)
+		s1, _ = step(s1)
+		ov, _ := runEdgeFrom(s1, edgeCase{1, 1, 1, 0}, ai.NewConstInt(8, false, 0xFF))
+		if ov.Post == nil {
+			r.Fail("undecided", "W-window", "overflow after an earlier TMA write", where, "no post-state")
+		} else {
+			st := doWrite(ov.Post, wTAC, ai.NewConstInt(8, false, 0))
+			v, s := newV("tima-A2")
+			st = doWrite(st, wTIMA, v)
+			a, _ := step(st)
+			b, _ := step(a)
+			ta, tb := c.cellInt(a, tm, ".tima"), c.cellInt(b, tm, ".tima")
+			r.Ob("W-window", exactly(ta, s) && exactly(tb, s), "a cancelled reload stays cancelled even if TMA was written some cycles before the overflow", where, fmt.Sprintf("TIMA after cycle A %s, after the next cycle %s; documented: the value written in the 00 cycle", ai.ValueString(ta), ai.ValueString(tb)))
 		}
 	}
 
